@@ -10,6 +10,10 @@ import Gotree.Lemmas.C05RemoveAny
 import Gotree.Lemmas.C05StrictRm
 import Gotree.Lemmas.C05Keys
 import Gotree.Lemmas.C05OrientPath
+import Gotree.Lemmas.C05Index
+import Gotree.Lemmas.C05History
+import Gotree.Model.C05Source
+import Gotree.Gen.C05Source
 
 /- The property theorems live in `Gotree.C05.P` (the shared lemma file already uses the
    plain names `C05.moveRoot_dist` … for its general versions). -/
@@ -628,5 +632,60 @@ theorem midpoint_farend_pinned_fails :
     okAnd (rerootMidPoint farT) (fun u =>
       halfwayOK farT u && u.rootDist "t2" == 33/16 && u.rootDist "t0" == 33/16 && u.dist "t2" "t0" == 33/8) = true ∧
     diam farT = 33/8 := by decide +kernel
+
+/-! ## The derived indexes after a history of operations (round 7)
+
+`Reroot`, `UnRoot`, `RerootOutGroup`, `RerootMidPoint` end by recomputing the tip index and / or the
+bitsets of all branches from the tree (`UpdateTipIndex`, `ClearBitSets`, `UpdateBitSet`), so the indexes
+after a history `runSteps` are `indexOf` of the resulting tree. -/
+
+/-- `UpdateBitSet` / `fillRightBitSet`: in `Edges()` order every branch receives exactly the numbers of
+    the tips below it, whatever the numbering. -/
+theorem index_bitsets_are_splits (tid : String → Nat) (t : T) :
+    bitsets tid t = t.splits.map (fun s => s.below.map tid) := bitsets_eq tid t
+
+/-- `UpdateTipIndex` (sorted tips, `tipid = i`): a tip is numbered by the number of tip names strictly
+    smaller than its own. -/
+theorem index_tipid_is_rank (t : T) (x : String) (hx : x ∈ t.tipNames) :
+    idxOfName x (sortNames t.tipNames) = tipRank t.tipNames x := tipid_rank _ x hx
+
+/-- Whatever the history, the indexes the model recomputes at its end satisfy the Spec predicate the
+    oracle evaluates on the implementation's indexes (`indexOK`): the index counts the tips of the
+    resulting tree, numbers each by its rank, and every branch carries the bitset of the tips below it. -/
+theorem index_after_history (steps : List Step) (t u : T) (_h : (runSteps steps t).2 = .ok u) :
+    indexOK u (indexOf u).nb ((indexOf u).ids.map Int.ofNat) ((indexOf u).bits.map some) [] = true :=
+  indexOK_indexOf u
+
+/-- a history of three steps on `exT` (reroot below the first root child, outgroup rooting with removal,
+    midpoint): it succeeds, two tips are gone, and the bitsets are those of the three tips left -/
+example : (match (runSteps [.reroot [0], .outgroup true false ["D", "E"], .midpoint] exT).2 with
+    | .ok u => (indexOf u).nb == 3 && (indexOf u).ids.length == 3 && (indexOf u).bits.length == u.splits.length
+    | _ => false) = true := by decide +kernel
+
+/-- `history_preserves`: any history of root moves and reorderings on one tree — `Reroot` at any node of the
+    tree as it is then, `UnRoot`, `RerootOutGroup` without removal (strict or not, any outgroup),
+    `RerootMidPoint`, `SortNeighborsByTips`, `RerootFirst`, `RotateInternalNodes` with any draws —, when every
+    step succeeds, preserves the tip set, the unrooted splits with lengths and supports and every tip-to-tip
+    distance.  `historyOK` (evaluated by the driver, tag `hyp-historyok`): no step removes tips and the tree
+    before every step has lengths and supports absent or non-negative. -/
+theorem history_preserves (steps : List Step) (t u : T) (hu : uniq t = true) (hh : historyOK steps t = true)
+    (h : (runSteps steps t).2 = .ok u) :
+    u.tipNames.Perm t.tipNames ∧ u.usplits.Perm t.usplits ∧ u.tipLens.Perm t.tipLens ∧
+    ∀ a b, a ∈ t.tipNames → b ∈ t.tipNames → u.dist a b = t.dist a b :=
+  (history_same steps t u hh ((uniq_iff t).1 hu) h).spec
+
+example : historyOK [.reroot [0], .outgroup false false ["D", "E"], .midpoint, .unroot, .sort] exT = true ∧
+    (runSteps [.reroot [0], .outgroup false false ["D", "E"], .midpoint, .unroot, .sort] exT).1 = 5 := by decide +kernel
+
+/-! ## The facts about the source the model relies on (regenerated by `vh gen-tables`) -/
+
+/-- The tables extracted from the working tree (call-graph reachability of the index / orientation
+    routines, comparison operators of the selection predicates, constant factors, the method and the
+    arguments each command uses, the flags and their defaults) are the ones the model was written for
+    (`Gotree/Model/C05Source.lean` says which definition rests on which row). -/
+theorem source_facts_check :
+    Gotree.Gen.C05Source.reaches = Source.reaches ∧ Gotree.Gen.C05Source.cmps = Source.cmps ∧
+    Gotree.Gen.C05Source.factors = Source.factors ∧ Gotree.Gen.C05Source.commands = Source.commands ∧
+    Gotree.Gen.C05Source.flags = Source.flags := by decide
 
 end Gotree.C05.P
